@@ -94,6 +94,24 @@ healthCheck.maxFailed = %d
 		}(p)
 	}
 	wg.Wait()
+	if c.Violations() > 0 {
+		return
+	}
+	// stopped means stopped: once the client is closed no proxy may probe its backend any more
+	cli.Close()
+	time.Sleep(300 * time.Millisecond) // a probe in flight may still complete
+	var before []int
+	for _, p := range gps {
+		before = append(before, p.hb.nProbes())
+	}
+	time.Sleep(2500 * time.Millisecond) // 2.5 probe intervals
+	for i, p := range gps {
+		if n := p.hb.nProbes(); n > before[i]+1 {
+			c.Violation("health-probes-continue-after-stop", "%s: %d further health probes reached the backend within 2.5 s after the client was closed", p.name, n-before[i])
+			return
+		}
+	}
+	run.Count("gating_checked_probes_stop", 1)
 }
 
 const gateGrace = 25 * time.Second // 3x (interval + timeout + back-off) + 10 s
